@@ -276,7 +276,7 @@ func VerifC30_step() {
 func VerifC30_history() {
 	c, k, maxLen, gap := 2, 3, 3, 2
 	if vfTier() > 0 {
-		c, k, maxLen, gap = 4, 3, 5, 4
+		c, k, maxLen, gap = 2, 3, 4, 3 // a 4-byte write at an odd offset spans three chunks
 	}
 	c30setChunk(c)
 	var p pipe
